@@ -251,6 +251,24 @@ TheSchema == [
           F("state_flags", U(8)), F("burn_bridge_fee", Grams) >>),
      Alt("jetton_bridge_params_v1", Tag8(1), << F("bridge_address", Bits(256)), F("oracles_address", Bits(256)), F("oracles", HmE(256, U(256))),
           F("state_flags", U(8)), F("prices", Ref(Named("JettonBridgePrices"))), F("external_chain_address", Bits(256)) >>) >>,
+  \* ---- configuration parameters themselves (ConfigParam n)
+  ConfigParam0 |-> << Alt("cp0", <<>>, << F("config_addr", Bits(256)) >>) >>,
+  \* burning_config#01 blackhole_addr:(Maybe bits256) fee_burn_nom:# fee_burn_denom:# { fee_burn_nom <= fee_burn_denom } { fee_burn_denom >= 1 }
+  ConfigParam5 |-> << AltC("burning_config", Tag8(1), << F("blackhole_addr", Maybe(Bits(256))), F("fee_burn_nom", U(32)), F("fee_burn_denom", UPos(32)) >>,
+                            << <<"fee_burn_nom", "fee_burn_denom">> >>) >>,
+  ConfigParam6 |-> << Alt("cp6", <<>>, << F("mint_new_price", Grams), F("mint_add_price", Grams) >>) >>,
+  ConfigParam7 |-> << Alt("cp7", <<>>, << F("to_mint", HmE(32, VarU(32))) >>) >>,
+  ConfigParam9 |-> << Alt("cp9", <<>>, << F("mandatory_params", Hm(32, UnitT)) >>) >>,
+  ConfigParam12 |-> << Alt("cp12", <<>>, << F("workchains", HmE(32, Lite(Named("WorkchainDescr")))) >>) >>,
+  ConfigParam15 |-> << Alt("cp15", <<>>, << F("validators_elected_for", U(32)), F("elections_start_before", U(32)), F("elections_end_before", U(32)),
+        F("stake_held_for", U(32)) >>) >>,
+  \* { max_validators >= max_main_validators } { max_main_validators >= min_validators } { min_validators >= 1 }
+  ConfigParam16 |-> << AltC("cp16", <<>>, << F("max_validators", U(16)), F("max_main_validators", U(16)), F("min_validators", UPos(16)) >>,
+                            << <<"max_main_validators", "max_validators">>, <<"min_validators", "max_main_validators">> >>) >>,
+  ConfigParam17 |-> << Alt("cp17", <<>>, << F("min_stake", Grams), F("max_stake", Grams), F("min_total_stake", Grams), F("max_stake_factor", U(32)) >>) >>,
+  ConfigParam18 |-> << Alt("cp18", <<>>, << F("prices", Hm(32, Lite(Named("StoragePrices")))) >>) >>,
+  ConfigParam31 |-> << Alt("cp31", <<>>, << F("fundamental_smc_addr", HmE(256, UnitT)) >>) >>,
+  ConfigParam32 |-> << Alt("cp32", <<>>, << F("prev_validators", Lite(Named("ValidatorSet"))) >>) >>,
   \* ---- output actions
   \* libref_hash$0 lib_hash:bits256 = LibRef;  libref_ref$1 library:^Cell = LibRef;
   LibRef |-> << Alt("libref_hash", <<0>>, << F("lib_hash", Bits(256)) >>), Alt("libref_ref", <<1>>, << F("library", RefCell) >>) >>,
